@@ -91,6 +91,24 @@ var findingClasses = []findingClass{
 		m := regexp.MustCompile(`^\^\s*0+\.0+\.(\d+)$`).FindStringSubmatch(strings.TrimSpace(rng))
 		return kind == "shorthand-interval" && m != nil
 	}},
+	// conan ~ and ^ compare the leading parts for equality: a probe part such as "3w" never matches
+	{"F-conan-shorthand-alnum-part", "C05", "conan", func(kind string, rng string, vs []string) bool {
+		if kind != "shorthand-interval" || len(vs) < 2 || !strings.ContainsAny(strings.TrimSpace(rng)[:1], "~^") {
+			return false
+		}
+		probe := vs[1]
+		if i := strings.IndexAny(probe, "-+"); i >= 0 {
+			probe = probe[:i]
+		}
+		for _, part := range strings.Split(probe, ".") {
+			for _, c := range part {
+				if c < '0' || c > '9' {
+					return true
+				}
+			}
+		}
+		return false
+	}},
 	// pypi: local version labels are ignored by Compare
 	{"F-pypi-local-label", "C09", "pypi", func(kind string, rng string, vs []string) bool {
 		if kind != "reference-order" {
